@@ -19,6 +19,7 @@
 package tx_pool
 
 import (
+	"errors"
 	"math"
 
 	"github.com/kardiachain/go-kardia/kai/events"
@@ -73,6 +74,10 @@ func NewReactor(config TxPoolConfig, txpool *TxPool) *Reactor {
 
 func (txR *Reactor) fetchTx(peer string, hashes []common.Hash) error {
 	p := txR.peers.Peer(p2p.ID(peer))
+	if p == nil {
+		// the peer was removed after the fetch had been scheduled
+		return errors.New("unknown peer")
+	}
 	return p.RequestTxs(hashes)
 }
 
